@@ -6,11 +6,17 @@ From V Require Export Base.Hex Index.TBState.
 
 (* short constructors used by the generated case files *)
 Definition hx := hex.
+(* compact byte strings (at most 15 bytes): length in the low 4 bits, big-endian value above *)
+Definition y (x : N) : bytes := be_enc (N.to_nat (x mod 16)) (x / 16).
+Definition KV (k v t : N) : kvt := (y k, y v, t).
+Definition E4 (k v t h : N) : bytes * bytes * N * N := (y k, y v, t, h).
+Definition TV (v t : N) : tv := (y v, t).
+Definition V3 (v t h : N) : bytes * N * N := (y v, t, h).
 Definition CF (maxn maxkey maxval flush maxbuf : N) (cleanup : bool) (cthld maxsnaps : N) : config :=
   {| c_maxn := maxn; c_maxkey := maxkey; c_maxval := maxval; c_flush_thld := flush;
      c_max_buffered := maxbuf; c_cleanup := cleanup; c_compaction_thld := cthld; c_max_snaps := maxsnaps |}.
-Definition RS (seek endk prefix : bytes) (incSeek incEnd desc : bool) (off : N) : rspec :=
-  {| rs_seek := seek; rs_end := endk; rs_prefix := prefix; rs_incl_seek := incSeek;
+Definition RS (seek endk prefix : N) (incSeek incEnd desc : bool) (off : N) : rspec :=
+  {| rs_seek := y seek; rs_end := y endk; rs_prefix := y prefix; rs_incl_seek := incSeek;
      rs_incl_end := incEnd; rs_desc := desc; rs_offset := off |}.
 
 Inductive target := TCur | TSnap (id : N).
